@@ -66,7 +66,7 @@ def run(chk, replay=None):
                 "(depth, period, call) triple; all are non-trivial")
     chk.assumptions = [
         "Blake2b-256 is collision free and Ed25519 is unforgeable (symbolic in the model: Hash injective, leaf signature a term)",
-        "depth 6 (quick) / 5-6 (thorough): verify periods are the extremes, t-1, t, t+1, 2^d, 2^d+t, -1 and every period one bit away from t, not all 2^d",
+        "depths 4-6 (quick) / 5-6 (thorough): every key period is visited, but verify periods are the extremes, t-1, t, t+1, 2^d, 2^d+t, -1 and every period one bit away from t, not all 2^d",
         "key material bytes (SecretKey.Data) are observed only through PublicKey and Sign, residual copies in memory are out of scope",
     ]
     drv = vlib.go_build("c39")
